@@ -1,6 +1,7 @@
 from __future__ import annotations
 
 import asyncio
+import math
 from collections.abc import Callable
 from datetime import datetime
 from typing import TYPE_CHECKING, cast
@@ -81,9 +82,9 @@ class RabbitMessageBroker(MessageBrokerT):
 
         exp: str | None = None
         if (delayed := wait_until(params)) is not None:
-            millis = int(
-                (delayed - datetime.now()).total_seconds() * 1000,
-            )  # milliseconds as an integer
+            # milliseconds as an integer, rounded up: a message must not become available
+            # before its next execution time
+            millis = math.ceil((delayed - datetime.now()).total_seconds() * 1000)
             if millis > 0:
                 exp = str(millis)
 
